@@ -155,14 +155,14 @@ func ResetGlobals() {
 //go:norace
 func Active() bool { return k.on }
 
-// OpStart gives the operation that starts now its own step budget (cfg.MaxSteps, default 3000000:
+// OpStart gives the operation that starts now its own step budget (cfg.MaxSteps, default 60000000:
 // three orders of magnitude above the largest legitimate render of the workload).
 //
 //go:norace
 func OpStart() {
 	b := k.cfg.MaxSteps
 	if b <= 0 {
-		b = 3_000_000
+		b = 60_000_000
 	}
 	if k.ntasks <= 1 {
 		k.maxSteps = k.step + b
